@@ -474,3 +474,24 @@ pub enum GB<V: Clone> {
     S { a: u8, b: V },
     T(V),
 }
+
+/// deep-copy struct holding one zero-copy block (its field is not a type
+/// parameter, so it is fully copied in eps mode)
+#[derive(Epserde, Debug, Clone, PartialEq, Eq)]
+#[deep_copy]
+pub struct DB {
+    pub blk: [u16; 2],
+}
+impl RefEnc for DB {
+    fn enc<const N: usize>(&self, o: &mut RefOut<N>) {
+        self.blk.enc(o)
+    }
+    fn unit() -> Option<usize> {
+        None
+    }
+}
+impl KEq for DB {
+    fn keq(&self, o: &Self) -> bool {
+        self.blk == o.blk
+    }
+}
